@@ -49,6 +49,13 @@ class Check(HCheck):
         ll = al.long_lrus((75, 149, 74))
         lops = [al.links((ll[0], ll[1])), al.links((ll[1], ll[0]), (ll[1], ll[1])), al.crawl((ll[2], (ll[0], ll[2]))), al.links((A, ll[1]), (ll[0], A)), al.page(ll[1], True)]
         sp.append(Space(Cfg("never"), lops, 5 if thorough else 4, name="links/long"))
+        # exhaustive small batch shapes, depth 1 (thorough 2 for link batches) from prepared states
+        P3 = [Ax, Axy, Ab]
+        prep = [al.R0, (al.page(Ax, True),), (al.links((Ax, Ab), (Ab, Ax), (Axy, Axy)),)]
+        sp.append(Space(Cfg("never"), al.all_link_batches(P3, 3), 1, roots=prep, name="shapes/links"))
+        sp.append(Space(Cfg("never"), al.all_crawl_batches([A, Ax, Axy, Ab]), 1, roots=prep + [(al.page(Axy), al.page(Ax, True), al.page(Ab, True))], name="shapes/crawl"))
+        if thorough:
+            sp.append(Space(Cfg("never"), al.all_link_batches(P3, 2), 2, roots=[al.R0], name="shapes/links-x2"))
         return sp
 
     def check_trans(self, w, tr, ctx):
